@@ -1145,6 +1145,8 @@ def gen_markup_case(r, idx, respell=False):
         lines.append("# WANTE " + e)
     lines.append("M encode " + hexs(markup))
     lines.append("M ets " + hexs(markup))
+    if len(markup) <= 31:
+        lines.append("M encodearr " + hexs(markup))
     lines.append("END")
     return lines
 
